@@ -270,7 +270,7 @@ func checkC08(c *Ctx) {
 		}
 		sig, what, _, _ := c08Judge(f.Src, mk, simple.New(names), "example.com/local")
 		c.Eval("corpus|"+f.Path, true)
-		if sig == "decorate-refused" && !bytes.Contains(f.Src, []byte("import \"C\"")) {
+		if sig == "decorate-refused" {
 			return // dot-imports, two packages of one name: the syntax-based resolver may refuse those
 		}
 		if sig != "" {
